@@ -216,7 +216,16 @@ class Prov:
             ck = rv.j["ck"]
             if ck.startswith("PointerCoercion") or ck in ("PtrToPtr", "Transmute", "Subtype"):
                 return inner
-            return ("cast", inner, self.body.tys[rv.j["ty"]])
+            src_ty = None
+            o = rv.ops[0]
+            try:
+                if o.place is not None:
+                    src_ty = self.body.place_ty(o.place)
+                elif o.const is not None and "ty" in o.const:
+                    src_ty = self.body.tys[o.const["ty"]]
+            except Exception:
+                src_ty = None
+            return ("cast", inner, self.body.tys[rv.j["ty"]], src_ty)
         if k == "bin":
             return ("bin", rv.j["op"], self.operand(rv.ops[0]), self.operand(rv.ops[1]))
         if k == "un":
@@ -403,7 +412,10 @@ def roots(e, extra_transparent=None, through=None):
             else:
                 out.add(x)
         elif k == "cast":
-            go(x[1], depth + 1)
+            if cast_is_lossless(x):
+                go(x[1], depth + 1)
+            else:
+                out.add(x)      # a truncating cast is not the identity: the value does not flow through unchanged
         elif k == "partial":
             go(x[2], depth + 1)
         elif k in ("field", "as", "index"):
@@ -764,6 +776,35 @@ SUB_CALLS = re.compile(r"(ops::(arith::)?Sub(<[^>]*>)?>?::sub|::checked_sub|::sa
                        r"|::duration_since|::saturating_duration_since|::checked_duration_since)$")
 
 
+INT_BITS = {"u8": (8, False), "u16": (16, False), "u32": (32, False), "u64": (64, False), "usize": (64, False), "u128": (128, False),
+            "i8": (8, True), "i16": (16, True), "i32": (32, True), "i64": (64, True), "isize": (64, True), "i128": (128, True),
+            "bool": (1, False), "char": (32, False)}
+
+
+def cast_is_lossless(e):
+    """for ("cast", inner, dst_ty, src_ty): True when every source value is representable in the destination (64-bit target assumed);
+    casts between non-integer types (pointers, fn items) are not numeric and count as lossless"""
+    dst = e[2] if len(e) > 2 else None
+    src = e[3] if len(e) > 3 else None
+    if dst not in INT_BITS:
+        return True
+    if src not in INT_BITS:
+        # unknown or non-integer source (enum discriminant reads etc.): be conservative only for narrow targets
+        return src is not None and not re.match(r"^[ui](8|16|32|64|128|size)$|^f(32|64)$", src) 
+    sb, ss = INT_BITS[src]
+    db, ds = INT_BITS[dst]
+    if ss == ds:
+        return db >= sb
+    if not ss and ds:
+        return db > sb
+    return False
+
+
+def lossy_casts(e):
+    """truncating / sign-changing integer casts anywhere inside an expression"""
+    return [x for x in walk(e) if x[0] == "cast" and not cast_is_lossless(x)]
+
+
 def const_int_of(e):
     if e[0] == "const":
         s = str(e[1])
@@ -792,6 +833,8 @@ def linear(e, atom=None, depth=0):
     if c is not None:
         return ({}, c)
     if k == "cast":
+        if not cast_is_lossless(e):
+            return None     # a truncating cast is not the identity
         return linear(e[1], atom, depth + 1)
     if k == "field" and e[1][0] == "bin" and e[1][1] in ("AddWithOverflow", "SubWithOverflow", "MulWithOverflow") \
             and e[2] == "0":
